@@ -169,6 +169,8 @@ def path_rules(ctx, arg):
 def path_hash(ctx, arg):
     """hash_int(value, length): at most `length` decimal digits, no leading zero, usable as a u32 pre-release number"""
     I, w = ctx.I, ctx.w
+    import models_std as MS
+    MS.HASH_RANGE[0] = 0          # the hash contract is decided over the whole u64 range
     n, length, allow0 = arg
     cs = [w.fresh_int('v%d' % i) for i in range(n)]
     for c in cs:
